@@ -3,7 +3,7 @@
    API half (which exception classes can escape validate()) is decided by enumeration of failure
    causes on the real code - see DESIGN.md. *)
 From Coq Require Import List NArith String Bool.
-From Verif Require Import Gen.T3 Mini.Cli Mini.CliProofs Closure.Worklist Closure.WorklistProofs Gen.T4.
+From Verif Require Import Gen.T3 Mini.Cli Mini.CliProofs Closure.Worklist Closure.WorklistProofs Gen.T4 Base.Terms Closure.ListCheck Closure.ListCheckProofs Gen.T5.
 Import ListNotations.
 Open Scope string_scope.
 
@@ -43,3 +43,27 @@ Print Assumptions C16_closures_total.
 
 Example C16_no_recursive_closure_left : recursive_closure_uses = [].
 Proof. reflexivity. Qed.
+
+(* Malformed lists are reported through a documented channel: the list check generated from ShapesGraph._check_rdf_lists
+   (Tie A, translator/t5.py) never runs out of fuel and accepts exactly the rest maps in which every rdf:rest chain ends -
+   ring-shaped and rho-shaped chains alike are rejected (ShapeLoadError), so that after acceptance every list of the shapes
+   graph can be enumerated (rdflib's Graph.items() has no cycle to raise its ValueError about). *)
+Theorem C16_list_check_decides : forall m,
+  check check_rdf_lists_prog m <> OutOfFuel
+  /\ (check check_rdf_lists_prog m = Accept <-> forall x, in_dom m x = true -> Good m x).
+Proof. exact check_decides. Qed.
+Print Assumptions C16_list_check_decides.
+
+Theorem C16_accepted_lists_end : forall m, check check_rdf_lists_prog m = Accept -> forall x, exists fl, steps_out fl m x = true.
+Proof. exact accepted_lists_end. Qed.
+Print Assumptions C16_accepted_lists_end.
+
+Example C16_list_check_wiring : rejects_second_rest = true /\ rejects_second_first = true /\ check_called_by_constructor = true.
+Proof. repeat split. Qed.
+
+Example C16_list_check_nonvacuous :
+  check check_rdf_lists_prog [(BN 1, BN 2); (BN 2, IRI 9)] = Accept                       (* a proper list *)
+  /\ check check_rdf_lists_prog [(BN 1, BN 2); (BN 2, BN 1)] = Reject                     (* a ring *)
+  /\ check check_rdf_lists_prog [(BN 1, BN 2); (BN 2, BN 3); (BN 3, BN 4); (BN 4, BN 3)] = Reject   (* rho shape *)
+  /\ check check_rdf_lists_prog [(BN 1, BN 3); (BN 2, BN 3); (BN 3, IRI 9)] = Accept.      (* a shared tail *)
+Proof. repeat split; vm_compute; reflexivity. Qed.
